@@ -116,10 +116,9 @@ pub struct Shape {
     pub ask_touched: bool,
 }
 
-/// Apply one side of an update to the model. Prices that occur more than once inside one update
-/// are ambiguous (the connector sorts the level list with an unstable sort before applying it, so
-/// which duplicate is applied last is not defined): every duplicate's outcome is allowed, the
-/// returned map lists the allowed outcomes for those prices (None = absent).
+/// Apply one side of an update to the model. For prices that occur more than once inside one
+/// update the returned map lists the allowed outcomes (None = absent): the last write for lists of
+/// up to 20 levels, any of the writes for longer lists (see below).
 fn apply_side(
     map: &mut BTreeMap<Decimal, Decimal>,
     levels: &[(Decimal, Decimal)],
@@ -130,11 +129,19 @@ fn apply_side(
         *count.entry(*p).or_default() += 1;
     }
     let mut ambiguous: BTreeMap<Decimal, Vec<Option<Decimal>>> = BTreeMap::new();
+    // The level list of an update is a sequence of writes: for a price named several times the
+    // LAST write counts (set-then-delete deletes). The connector sorts the list by price before
+    // applying it; up to SMALL_SORT levels that sort keeps the list order among equal prices, so
+    // the sequential reading is what the book must show. Beyond that the unstable sort may reorder
+    // equal prices and any of the writes is accepted.
+    const SMALL_SORT: usize = 20;
     for (p, a) in levels {
         if count[p] > 1 {
             let outcome = if a.is_zero() { None } else { Some(*a) };
             let e = ambiguous.entry(*p).or_default();
-            if !e.contains(&outcome) {
+            if levels.len() <= SMALL_SORT {
+                *e = vec![outcome];
+            } else if !e.contains(&outcome) {
                 e.push(outcome);
             }
             continue;
@@ -532,7 +539,7 @@ pub fn run(ctx: &mut Ctx) {
     ctx.rule = "book_model: vec(event,0..40|80) of OrderBookEvent::{Update 85%,Snapshot 15%}; update level lists unsorted, prices from a 12-point grid in 3 decimal representations (+ wild prices), 35% zero amounts; non-trivial = >=3 events AND >=1 delete of a present level AND (>=1 price repeated inside one update OR >=1 insert strictly inside a side) AND both sides touched; distinct by hash of the event list. book_manager: stream of Item/Reconnecting over configured and unconfigured instrument keys through OrderBookL2Manager::run (single and multi map); non-trivial = >=4 items with an unconfigured-instrument event and a reconnect notice. Exhaustive: every sequence up to the stated length over the 18-letter alphabet {bid,ask} x {price 1,2,3} x {amount 0,1,2}.".into();
     ctx.assumptions = vec![
         "snapshots are well-formed venue snapshots (unique prices, positive amounts) as every connector passes to OrderBook::new".into(),
-        "a price occurring more than once inside ONE update is applied in an order the code does not define (levels are sorted with an unstable sort first): any duplicate's outcome is accepted for that price".into(),
+        "a price named more than once inside ONE update is a sequence of writes, the last one counts; for level lists longer than 20 the connector's unstable sort may reorder equal prices, there any of the writes is accepted".into(),
         "amounts and prices are non-negative decimals".into(),
     ];
     ctx.run_regressions::<BookModel>();
